@@ -257,6 +257,53 @@ def geom_one(ctx, prog, S, C, I):
            "pools 0..%d, largest id %d <= %d" % (P_ - 1, max([(p * C + ((last[1] if last and p == last[0] else Cn) or 1) - 1) for p in range(max(P_ - 2, 0), P_)] or [0]), N - 1)
            if worst is None else
            "pool #%d with %d slots produces id %d, but ids must stay below NULL_SLOT=%d: SlotId(...) wraps and two values share a slot" % (worst[0], worst[1], worst[2], N))
+    # A2: the limit is a clean edge: the pools together hold exactly
+    # NULL_SLOT slots (ids 0..NULL_SLOT-1), not fewer
+    if worst is None and P_ <= K:
+        total = 0
+        for p in range(P_):
+            total += (last[1] if (last and p == last[0]) else Cn) if P_ < 5000 else 0
+        if P_ >= 5000:
+            total = (P_ - 1) * Cn + (last[1] if last and last[0] == P_ - 1 else Cn)
+            if last and last[0] < P_ - 1:
+                total += last[1] - Cn
+        ctx.ob(rule, "slot capacity reaches NULL_SLOT [%s]" % tag, total == N, ap.where,
+               "%d pools hold %d slots = NULL_SLOT" % (P_, total) if total == N else
+               "%d pools hold %d slots but ids 0..%d are available: a history with more than %d values fails in this "
+               "geometry although it stays below the documented limit of %d slots" % (P_, total, N - 1, total, N))
+
+    # R-NULLSLOT: getSlot maps the reserved id to a null pointer
+    for gs in prog.q("MemoryPoolList::getSlot"):
+        acc = None
+        for i, st in gs.calls():
+            if st["callee"]["q"].endswith("MemoryPool::getSlot"):
+                acc = i
+        if acc is None:
+            ctx.ob(rule, "getSlot(NULL_SLOT) is null [%s]" % tag, None, gs.where, "pool access not found")
+            continue
+        ok = False
+        other = None
+        idp = gs.params[0]["d"] if gs.params else None
+        for cond, pol in gs.guards_of(acc):
+            c = gs.s(gs.strip(cond, casts=True))
+            if c["k"] == "BinaryOperator" and c["op"] in ("==", "!="):
+                a, b = c["c"]
+                for x, y in ((a, b), (b, a)):
+                    sx = gs.s(gs.strip(x, casts=True))
+                    if sx["k"] == "DeclRefExpr" and sx["ref"]["d"] == idp and gs.const(y) == N:
+                        if (c["op"] == "==" and pol is False) or (c["op"] == "!=" and pol is True):
+                            ok = True
+            elif c["k"] == "BinaryOperator" and c["op"] in (">=", "<", ">", "<="):
+                other = gs.text(cond)
+        if not ok and other is not None:
+            # an index guard excludes NULL_SLOT only if its pool index can
+            # never exist: NULL_SLOT / C >= maximum pool count
+            ok = (N // C) >= P_
+        ctx.ob(rule, "getSlot(NULL_SLOT) is null [%s]" % tag, ok, gs.loc(acc),
+               "pool access dominated by id != NULL_SLOT" if ok else
+               "the reserved id %d falls into pool #%d, which exists once %d pools are allocated: getSlot(NULL_SLOT) returns a "
+               "pointer past that pool instead of null, so every list walk runs off the end (guard: %s)" % (N, N // C, N // C + 1, other or "none"))
+
     if P_ >= 2 or not last:
         ctx.ob(rule, "POOL_CAPACITY fits SlotCount [%s]" % tag, not trunc, ap.where,
                "SlotCount(POOL_CAPACITY)=%d" % Cn if not trunc else "POOL_CAPACITY=%d is truncated to %d by SlotCount" % (C, Cn))
@@ -389,7 +436,45 @@ def r_grow(ctx, prog):
            "initialCapacity=%d with growth size_*%s+%s never equals maxLength=%d: strings between the last capacity and maxLength are refused below the documented limit" % (init, m, a, ML))
 
 
+def r_accw(ctx, prog):
+    """Announced sizes of MessagePack headers (up to 4 bytes) are accumulated
+    big-endian as x = (x << 8) | byte.  The accumulator must be at least 32
+    bits wide, otherwise an announced length above the string limit wraps
+    before the limit is checked."""
+    rule = "R-ACCW"
+    n = 0
+    for fn in sorted(prog.fns.values(), key=lambda f: f.key):
+        if not fn.cls.endswith("MsgPackDeserializer"):
+            continue
+        for i in fn.walk():
+            st = fn.s(i)
+            if st["k"] != "BinaryOperator" or st["op"] != "=":
+                continue
+            l = fn.s(fn.strip(st["c"][0], casts=True))
+            if l["k"] != "DeclRefExpr":
+                continue
+            # rhs contains (l << 8)
+            shl = None
+            for j in fn.walk(st["c"][1]):
+                sj = fn.s(j)
+                if sj["k"] == "BinaryOperator" and sj["op"] == "<<" and fn.const(sj["c"][1]) == 8:
+                    a = fn.s(fn.strip(sj["c"][0], casts=True))
+                    if a["k"] == "DeclRefExpr" and a["ref"]["d"] == l["ref"]["d"]:
+                        shl = j
+            if shl is None:
+                continue
+            n += 1
+            tk = l.get("tk", "")
+            w = int(tk[1:]) if tk[:1] in "us" and tk[1:].isdigit() else 0
+            ctx.ob(rule, "%s: size accumulator %s is at least 32 bits" % (fn.short, l["ref"]["n"]), w >= 32 and tk[0] == "u", fn.loc(i),
+                   "accumulator type %s" % l.get("t") if w >= 32 else
+                   "the announced size is accumulated in %s (%d bits): a header announcing a length above 2^%d wraps before "
+                   "it is compared with the string limit, so an over-long string is stored truncated instead of being refused" % (l.get("t"), w, w))
+    ctx.floor(rule, "size accumulators in MsgPackDeserializer", n, 2)
+
+
 def run(ctx, prog):
+    r_accw(ctx, prog)
     widths(ctx, prog)
     r_len(ctx, prog)
     r_grow(ctx, prog)
@@ -414,3 +499,4 @@ def run_global(ctx, progs, tier):
     ctx.doc("R-WIDTH", "type-level width facts per configuration")
     ctx.doc("R-LEN", "length check dominates allocation and narrowing")
     ctx.doc("R-GROW", "string builder growth meets maxLength exactly")
+    ctx.doc("R-ACCW", "MessagePack size accumulators are at least 32 bits wide")
